@@ -108,6 +108,14 @@ func (eng *Engine) verifyContract(ct *Contract) (res *FuncResult) {
 		}
 	}
 	vc.frame.next0 = st.next
+	if ct.autoFrame() {
+		vc.frame.active = true
+		for i, p := range fn.Params {
+			if _, ok := p.Type().Underlying().(*types.Pointer); ok {
+				vc.frame.refs = append(vc.frame.refs, args[i].S)
+			}
+		}
+	}
 	if ct.ModNothing || len(ct.Modifies) > 0 {
 		vc.frame.active = true
 		for _, cl := range ct.Modifies {
@@ -173,6 +181,13 @@ func (ct *Contract) nonNilParams() []int {
 		}
 	}
 	return res
+}
+
+// autoFrame: contracts created by a sweep (and explicit ones marked nonnil
+// without a modifies clause inside a sweep) get the default frame "writes only
+// the objects passed by pointer and objects allocated during the call".
+func (ct *Contract) autoFrame() bool {
+	return ct.SweepFrame && !ct.ModNothing && len(ct.Modifies) == 0 && ct.Fn != nil
 }
 
 func (eng *Engine) verifyLemma(ct *Contract, vc *VC, st *State) {
